@@ -14,7 +14,9 @@ for d in Extract/Extract_*.v; do n=$(basename "$d" .v); n=${n#Extract_}; mkdir -
 timeout 3000 make -j16 2>&1 | grep -v '^COQDEP\|^COQC\|^Closed under\|^make\[' | tail -50
 cd ..
 for d in ocaml/*/; do
-  if [ -f "$d/driver.ml" ] && [ -f "$d/model.ml" ]; then
+  if [ -f "$d/build.sh" ]; then
+    sh "$d/build.sh"
+  elif [ -f "$d/driver.ml" ] && [ -f "$d/model.ml" ]; then
     (cd "$d" && ocamlfind ocamlopt -w -a -package str -linkpkg model.mli model.ml driver.ml -o oracle)
   fi
 done
